@@ -1297,7 +1297,8 @@ Proof. repeat split; vm_compute; reflexivity. Qed.
    section 25 is an operation on the canonical path (segments, last segment), and a pushed segment is a good segment
    of the class (clean for PATH, no '/', no '\' for special schemes, not a dot segment).
    ReachC6p (C06_AllPsm.v) = the histories of C06_all (ReachC6) + path_segments_mut sessions on URLs with an
-   authority + every step of C02's ReachC3 (C02_Reach4.canon_op3 outside C02's known step classes: set_ip_host,
+   authority + set_path on the authority-less '/'-led layout without marker (premises of section 29, result not
+   "//"-led) + every step of C02's ReachC3 (C02_Reach4.canon_op3 outside C02's known step classes: set_ip_host,
    set_host(Some), set_scheme, quirks protocol, set_path / quirks pathname with ANY &str on a URL with an authority).
    C06_all_p: every record of such a history is Canon, wfh, auth_end_ok, satisfies all_calls (C06_all) and
    psm_calls: a session returns a canonical record, which is with_path u (session_text ..) - path read-back explicit -
@@ -1431,3 +1432,41 @@ Proof.
   split; [eexists; split; [vm_compute; reflexivity | split; vm_compute; reflexivity]|].
   vm_compute; reflexivity.
 Qed.
+
+(* 29. WHOLE-URL parser agreement for set_path on the AUTHORITY-LESS layout (Proofs/C06_SpliceNoAuth.v): canonical record
+   without authority whose path starts with '/' and that carries no "/." marker (path_start = scheme_end + 1).
+   Argument: '/'-led, a &str free of '?' / '#', whose next character (TAB/LF/CR skipped) is not a second '/' (the parser
+   would read an authority there: not a splice of the path), not ending in C0 / space when neither query nor fragment
+   follows.  Result: not starting with "//" (path_starts_with_2slash u' = false; otherwise F-C02-8: the parser inserts
+   the "/." marker where the setter does not - exact by C06_frame_path_noauth_exact).  Then the setter's record is
+   canonical and Parser::parse_url on the old serialization with the RAW argument in the path position returns exactly it.
+   GAP: the marker layout ("a:/.//p"), opaque paths (F-C02-3), file URLs. *)
+From RU Require Import Proofs.C06_SpliceNoAuth.
+
+Theorem C06_splice_agreement_set_path_noauth : forall dbg hp hpo hd u rest u', Canon hp hpo hd u ->
+  has_authority_b u = false -> byte_eqb (ser u) (scheme_end u + 1) 47 = true -> path_start u = scheme_end u + 1 ->
+  usv_list (47 :: rest) -> forallb no_qh (47 :: rest) = true -> inp_starts_with_char 47 rest = false ->
+  (query_start u = None -> fragment_start u = None -> first_ok (rev (47 :: rest))) ->
+  set_path dbg u (47 :: rest) = Some u' -> nlen (ser u') <= U32_MAX_P ->
+  path_starts_with_2slash u' = false ->
+  Canon hp hpo hd u' /\ parse_url dbg hp hpo hd None None (splice_path u (47 :: rest)) = POk u'.
+Proof. exact splice_agreement_set_path_noauth. Qed.
+Check C06_splice_agreement_set_path_noauth : forall dbg hp hpo hd u rest u', Canon hp hpo hd u ->
+  has_authority_b u = false -> byte_eqb (ser u) (scheme_end u + 1) 47 = true -> path_start u = scheme_end u + 1 ->
+  usv_list (47 :: rest) -> forallb no_qh (47 :: rest) = true -> inp_starts_with_char 47 rest = false ->
+  (query_start u = None -> fragment_start u = None -> first_ok (rev (47 :: rest))) ->
+  set_path dbg u (47 :: rest) = Some u' -> nlen (ser u') <= U32_MAX_P ->
+  path_starts_with_2slash u' = false ->
+  Canon hp hpo hd u' /\ parse_url dbg hp hpo hd None None (splice_path u (47 :: rest)) = POk u'.
+Print Assumptions C06_splice_agreement_set_path_noauth.
+
+(* "a:/p" -> set_path("/x y/../z") -> "a:/z"; the spliced text is "a:/x y/../z" *)
+Example C06_splice_agreement_set_path_noauth_inhabited :
+  Canon ex_hp ex_hp ex_hd na_u /\ ser na_u = B "a:/p" /\ has_authority_b na_u = false
+  /\ byte_eqb (ser na_u) (scheme_end na_u + 1) 47 = true /\ path_start na_u = scheme_end na_u + 1
+  /\ usv_list (B "/x y/../z") /\ forallb no_qh (B "/x y/../z") = true
+  /\ inp_starts_with_char 47 (B "x y/../z") = false
+  /\ first_ok (rev (B "/x y/../z"))
+  /\ (exists u', set_path true na_u (B "/x y/../z") = Some u' /\ ser u' = B "a:/z" /\ path_starts_with_2slash u' = false)
+  /\ splice_path na_u (B "/x y/../z") = B "a:/x y/../z".
+Proof. exact (splice_noauth_inhabited ex_hp ex_hp ex_hd). Qed.
